@@ -14,7 +14,7 @@ func init() {
 	register(&Property{
 		ID:          "C05",
 		Engines:     []string{"cfg", "lockset"},
-		Explanation: "Per-connection job serialisation, structural part: jobList is only touched under Conn.mux (O1); Execute tests closed and appends in one critical section and its closed edge returns false without appending or starting a drainer (O2); a drainer is started only by the submitter that found the list empty, decided in the critical section of the append (O3); the drainer decides exhaustion, resets the list and fetches the next job in one critical section, runs the job with the mutex released and advances its index by one (O4); jobs run inside a recover frame (O5); MustExecute has no closed test, the nbhttp close hook does all its work inside a MustExecute job, and parsers / WebSocket connections on the poller paths use the bound Execute of the registered connection (O6). A job handed to Execute is never also called directly by the submitter (O7).",
+		Explanation: "Per-connection job serialisation, structural part: jobList is only touched under Conn.mux (O1); Execute tests closed and appends in one critical section and its closed edge returns false without appending or starting a drainer (O2); a drainer is started only by the submitter that found the list empty, decided in the critical section of the append (O3); the drainer decides exhaustion, resets the list and fetches the next job in one critical section, runs the job with the mutex released and advances its index by one (O4); jobs run inside a recover frame (O5); MustExecute has no closed test, the nbhttp close hook does all its work inside a MustExecute job, and parsers / WebSocket connections on the poller paths use the bound Execute of the registered connection (O6). A job handed to Execute is never also called directly by the submitter (O7). Executors stored in Engine.Execute use the job they are given (O8).",
 		NotCovered:  "the hand-over under all interleavings (a model-checking statement; O3+O4 are its necessary shape); behaviour of user-supplied executors",
 		Run:         runC05,
 	})
@@ -28,6 +28,8 @@ func runC05(c *Ctx) {
 	c.Rule("C05.O5", "E4", "the job, the default Engine.Execute and SyncExecutor run the function inside a frame that defers recover()", 3)
 	c.Rule("C05.O7", "E4", "a job handed to a connection's Execute is never also called directly by the submitter: a refused job (closed connection) is dropped, not run inline next to the jobs still queued or running", 4)
 	c05NoInlineRun(c)
+	c.Rule("C05.O8", "E5", "every function literal stored in Engine.Execute uses the job it is given (calls it, starts it, passes it on): an executor that drops its argument makes MustExecute queue a job that never runs", 2)
+	c05ExecutorsRunWhatTheyGet(c)
 	c.Rule("C05.O6", "E5", "MustExecute has no closed test; the nbhttp close hook works only inside a MustExecute job; poller-path parsers and WebSocket conns use the bound Execute of the registered connection", 14)
 
 	L := c.Locks()
